@@ -1049,6 +1049,19 @@ func (s *Sim) IsDown() bool {
 	return s.down
 }
 
+// LockWaiterIDs returns the identities of all goroutines waiting for a scheduler-granted locker, held or not.
+func (s *Sim) LockWaiterIDs() []string {
+	s.mu.Lock()
+	defer s.mu.Unlock()
+	var out []string
+	for _, l := range s.lockers {
+		for _, w := range l.waiters {
+			out = append(out, w.id)
+		}
+	}
+	return out
+}
+
 // ParkedIDs returns the identities of the goroutines waiting at yield points (unsorted copy).
 func (s *Sim) ParkedIDs() []string {
 	s.mu.Lock()
